@@ -46,6 +46,11 @@ MUT = {
         # the Builder starts to care about the node's class: only StandardNode applications are relaxed to the LCA
         "scope-relaxation-only-for-standard-nodes": [("src/spox/_build.py", "            self.scope_tree.scope_of[node] = self.scope_tree.lca(\n                graph, self.scope_tree.scope_of[node]\n            )\n", "            if type(node).__mro__[1].__name__ != 'Node':  # only non-plain nodes are relaxed\n                self.scope_tree.scope_of[node] = self.scope_tree.lca(\n                    graph, self.scope_tree.scope_of[node]\n                )\n")],
     },
+    "C18-round4": {
+        "nested-value-type-must-equal-declared": [("src/spox/_value_prop.py", "                elem.type._subtype(self.type.elem_type)\n", "                elem.type == self.type.elem_type\n"), ("src/spox/_value_prop.py", "                isinstance(self.value, PropValue)\n                and PropValue(self.type.elem_type, self.value.value).check()\n", "                isinstance(self.value, PropValue)\n                and self.value.type == self.type.elem_type\n                and PropValue(self.type.elem_type, self.value.value).check()\n")],
+        "nested-value-type-must-equal-sequence-only": [("src/spox/_value_prop.py", "                elem.type._subtype(self.type.elem_type)\n", "                elem.type == self.type.elem_type\n")],
+        "inline-rejects-untyped-inputs": [("src/spox/_inline.py", "            if var.type is not None and not (\n                var.type._subtype(Type._from_onnx(i.type))\n            ):\n", "            if not (\n                var.unwrap_type()._subtype(Type._from_onnx(i.type))\n            ):\n")],
+    },
     "C18-repeat": {
         "inputs-deduplicated-by-var": [("src/spox/_node.py", "        input_names = [scope.var[var] if var is not None else \"\" for var in self.inputs]\n", "        _names = {}\n        for var in self.inputs:\n            _names.setdefault(id(var) if var is not None else object(), scope.var[var] if var is not None else '')\n        input_names = list(_names.values())\n")],
         "trim-end-located-by-name-lookup-ignoring-min": [("src/spox/_node.py", "        while len(input_names) > self.min_input and not input_names[-1]:\n            input_names.pop()\n", "        _used = [n for n in input_names if n]\n        _end = input_names.index(_used[-1]) + 1 if _used else 0\n        input_names = input_names[: _end if _used and input_names[-1] else len(input_names)]\n")],
